@@ -1,5 +1,5 @@
-(* Percolator/Inv.v — the invariants (J1–J6 of DESIGN Appendix B adapted to System.v's state)
-   and their consequences. Preservation is proved in ProofsA/B/C.v. *)
+(* Percolator/Inv.v — the invariants (J1–J6 of docs/DESIGN_ROUND1.md, Appendix B, adapted to System.v's state)
+   and their consequences. Preservation is proved in OwnA.v, OwnB.v, Deliver*.v and assembled in Proofs.v. *)
 From Verif Require Export Percolator.Basics.
 
 Definition F (s : sys) (T : N) (f : fld) : N := cn (getc s T) f.
